@@ -5,6 +5,7 @@ CONSTANTS
     MaxDt = 2
     MaxBDt = 2
     LeaveOKStartsDuration = TRUE
+    BatchGaps = {0, 1}
     MaxBatch = 3
 INVARIANTS
     Verdict
